@@ -241,7 +241,7 @@ def multi_program(h, tag, spec, nmodes=3):
     return prog, truth
 
 
-def _multi(ca, cb):
+def _multi(ca, cb, compare_params=True):
     def fn(h):
         import numpy as _np
         pu = h.module(PU)
@@ -253,7 +253,7 @@ def _multi(ca, cb):
             seen.append((G1, G2, node_match))
             return True
         with h.stubbed(pu.nx, "is_isomorphic", recorder):
-            out = h.call(pu.program_equivalence, pa, pb)
+            out = h.call(pu.program_equivalence, pa, pb) if compare_params else h.call(pu.program_equivalence, pa, pb, compare_params=False)
         h.ensure("no-exception", out.returned, bounded_shape=True)
         if not out.returned or len(seen) != 1:
             h.ensure("one-isomorphism-query-decides", False, bounded_shape=True)
@@ -275,10 +275,11 @@ def _multi(ca, cb):
                 idx[k] = n
                 a = nodes[n]
                 h.ensure(f"{side}.{cls}.node-carries-its-own-inverse-flag", eqv(a.get("dagger"), dg), bounded_shape=True)
-                pv = list(a.get("p", []))
-                h.ensure(f"{side}.{cls}.node-carries-its-own-parameter-count", len(pv) == len(ps), bounded_shape=True)
-                for j, (x, y) in enumerate(zip(pv, ps)):
-                    h.ensure(f"{side}.{cls}.node-carries-its-own-parameter[{j}]", eqv(x, y), bounded_shape=True)
+                if compare_params:
+                    pv = list(a.get("p", []))
+                    h.ensure(f"{side}.{cls}.node-carries-its-own-parameter-count", len(pv) == len(ps), bounded_shape=True)
+                    for j, (x, y) in enumerate(zip(pv, ps)):
+                        h.ensure(f"{side}.{cls}.node-carries-its-own-parameter[{j}]", eqv(x, y), bounded_shape=True)
                 w = list(a.get("w", []))
                 if w == list(modes):
                     h.ensure(f"{side}.{cls}.node-carries-its-own-modes", True, bounded_shape=True)
@@ -309,7 +310,13 @@ def _multi(ca, cb):
         if res.returned:
             r = res.value
             h.ensure("node_match=>same-inverse-flag", Implies(r, eqv(x["dagger"], y["dagger"])), bounded_shape=True)
-            h.ensure("node_match=>parameters-within-tolerance", Implies(r, And(abs(x["p"][0] - y["p"][0]) <= 1e-6, abs(x["p"][1] - y["p"][1]) <= 1e-6)), bounded_shape=True)
+            if compare_params:
+                h.ensure("node_match=>parameters-within-tolerance", Implies(r, And(abs(x["p"][0] - y["p"][0]) <= 1e-6, abs(x["p"][1] - y["p"][1]) <= 1e-6)), bounded_shape=True)
+            else:
+                # structure-only comparison: parameters are ignored, everything else still has to agree
+                same_flag = Or(And(x["dagger"], y["dagger"]), And(Not(x["dagger"]), Not(y["dagger"])))
+                h.ensure("node_match-without-parameters=>same-inverse-flag", Implies(r, same_flag), bounded_shape=True)
+                h.ensure("node_match-without-parameters<=same-class-flag-and-modes", Implies(same_flag, r), bounded_shape=True)
             for key, val in (("name", "Rgate"), ("w", [1])):
                 z = dict(y)
                 z[key] = val
@@ -319,6 +326,10 @@ def _multi(ca, cb):
     return fn
 
 
+for _ca, _cb in [(2, 2), (3, 3), (5, 5), (0, 1)]:
+    PROOFS.append(Proof("C18", PU + ":program_equivalence", _multi(_ca, _cb, compare_params=False),
+                        name=f"program_equivalence/labelled-graph/structure-only/circuit{_ca}-vs-circuit{_cb}",
+                        native="from native.c18_eq import replay; replay('multi', OBLIGATION, I)"))
 for _ca, _cb in [(0, 0), (1, 1), (2, 2), (3, 3), (4, 4), (5, 5), (6, 6), (0, 1), (2, 3), (4, 5)]:
     PROOFS.append(Proof("C18", PU + ":program_equivalence", _multi(_ca, _cb),
                         name=f"program_equivalence/labelled-graph/circuit{_ca}-vs-circuit{_cb}",
